@@ -56,7 +56,7 @@ private:
 	using ConditionVariable = typename Threading::ConditionVariable;
 
 	struct QueuedItemBase;
-	using ItemDispatcher = void (*)(const HeterEventQueueBase *, const QueuedItemBase &);
+	using ItemDispatcher = void (*)(const HeterEventQueueBase *, QueuedItemBase &);
 
 	struct QueuedItemBase
 	{
@@ -282,25 +282,48 @@ private:
 		return queueNotifyCounter.load(std::memory_order_acquire) == 0;
 	}
 
-	void doDispatchQueuedEvent(const QueuedItemBase & item)
+	void doDispatchQueuedEvent(QueuedItemBase & item)
 	{
 		item.dispatcher(this, item);
 	}
 
 	template <typename PrototypeInfo>
-	static void doDispatchItem(const HeterEventQueueBase * self, const QueuedItemBase & baseItem)
+	static void doDispatchItem(const HeterEventQueueBase * self, QueuedItemBase & baseItem)
 	{
-		const auto & item = static_cast<const QueuedItem<typename PrototypeInfo::ArgsTuple> &>(baseItem);
+		auto & item = static_cast<QueuedItem<typename PrototypeInfo::ArgsTuple> &>(baseItem);
 		self->doDispatchQueuedItem<PrototypeInfo>(
 			item,
 			typename MakeIndexSequence<std::tuple_size<typename PrototypeInfo::ArgsTuple>::value>::Type()
 		);
 	}
 
+	// How a stored argument is handed to the dispatch: as a non-const lvalue if the prototype the event
+	// was enqueued for takes a non-const reference, otherwise as a const lvalue. The dispatch selects the
+	// prototype again from the argument types; passing every stored argument as const would never select
+	// a prototype such as void (T &) and the event would reach the listeners of another prototype.
+	template <typename Prototype>
+	struct PrototypeArguments;
+	template <typename RT, typename ...A>
+	struct PrototypeArguments <RT (A...)> { using Type = std::tuple<A...>; };
+
+	template <typename Declared, typename Stored>
+	struct QueuedArgument { using Type = const Stored &; };
+	template <typename Declared, typename Stored>
+	struct QueuedArgument <Declared &, Stored> {
+		using Type = typename std::conditional<std::is_const<Declared>::value, const Stored &, Stored &>::type;
+	};
+
 	template <typename PrototypeInfo, typename T, size_t ...Indexes>
 	void doDispatchQueuedItem(T && item, IndexSequence<Indexes...>) const
 	{
-		this->directDispatch(item.event, std::get<Indexes>(item.arguments)...);
+		using DeclaredArgs = typename PrototypeArguments<typename PrototypeInfo::Prototype>::Type;
+		this->directDispatch(
+			item.event,
+			static_cast<typename QueuedArgument<
+				typename std::tuple_element<Indexes, DeclaredArgs>::type,
+				typename std::tuple_element<Indexes, typename PrototypeInfo::ArgsTuple>::type
+			>::Type>(std::get<Indexes>(item.arguments))...
+		);
 	}
 
 	template <typename PrototypeInfo, typename F>
